@@ -17,8 +17,8 @@
    case   = 9001, per endpoint (A then B): c_s c_a c_n c_c c_max, nsteps, steps,
             nconnections, per Connection in creation order: nhints, hints
    step   = 0 x tag len | 1 x id tag len | 2 x id | 3 x id | 4 x | 5 x budget | 6 x | 7 x | 8 x
-            | 9 x w r | 10
-            [Sync, AsyncStart, AsyncPoll, AsyncDrop, Conn, Handle, Open, Close, Cmd, Gate, Kill]
+            | 9 x w r | 10 | 11 x
+            [Sync, AsyncStart, AsyncPoll, AsyncDrop, Conn, Handle, Open, Close, Cmd, Gate, Kill, CmdFail]
    trace  = 2, then per step: result, dump
    result = code, or for Handle: 0 | 1 k | 2 | 3 from per mode tag len
    dump   = aliveA aliveB sfreeA afreeA sfreeB afreeB nfreeA nfreeB carrierAB carrierBA cmdsA cmdsB
@@ -279,6 +279,7 @@ Definition p_step : parser step :=
   | 8 => let* x := pBool in pret (SCmd x)
   | 9 => let* x := pBool in let* w := pBool in let* r := pBool in pret (SGate x w r)
   | 10 => pret SKill
+  | 11 => let* x := pBool in pret (SCmdFail x)
   | _ => pfail
   end.
 
